@@ -391,14 +391,21 @@ BASIC = ["\u2025/outside/secret.liquid", "\uff0e\uff0e/outside/secret.liquid", "
          "../secret.liquid", "../secret", "m", "c.txt", "sub/../a.liquid", "", ".", "/", "x" * 300, "sub/" + "y" * 5000, "\x00", "<S>", "dangling.liquid", "loop.liquid", "é", "sp ace"]
 
 
+# every enumerated name again with its separators spelled as backslashes (all of them, and only the first): on POSIX a backslash is an
+# ordinary character of a file name, so a loader that "normalises" it after its traversal guard has run turns these into the names above
+BACKSLASHED = sorted({n.replace("/", "\\") for n in BASIC if "/" in n.strip("/")} | {n.replace("/", "\\", 1) for n in BASIC if n.count("/") > 1 and not n.startswith("/")}
+                     | {"..\\secret.liquid", "..\\secret", "sub\\..\\..\\secret.liquid", "..\\..\\outside\\secret.liquid", "..\\more\\m.liquid", "..\\private\\p.liquid", "..\\private\\p",
+                        "sub\\b.liquid", "sub\\b", "sub\\..\\a.liquid", "..\\root2\\d.liquid", "..\\root1x\\z.liquid", "\\..\\secret.liquid", ".\\..\\secret.liquid", "..\\/secret.liquid", "../..\\secret.liquid"})
+
+
 def cases(ctx: core.Ctx):
     rng = ctx.rng("cases")
     cfgs = list(CONFIGS)
     if ctx.shard == 0:
         yield from swap_cases()
         for c in cfgs:
-            for n in BASIC:
-                yield {"config": c, "name": n.replace("<S>", "<S>"), "surrogate": "<S>" in n}
+            for n in BASIC + BACKSLASHED:
+                yield {"config": c, "name": n, "surrogate": "<S>" in n}
         # exhaustive: all 1- and 2-component names (single '/' separator, no prefix and the absolute prefixes) for every config
         if ctx.tier == "thorough":
             for c in cfgs:
